@@ -375,7 +375,7 @@ func TestC31Arith(t *testing.T) {
 		var cases []icase
 		var exprs []string
 		for i := 0; i < nIntervals; i++ {
-			iv := genInterval(rt, fmt.Sprintf("i%d", i), maxFixed)
+			iv := genInterval(rt, fmt.Sprintf("i%d", i), maxFixed, d.D >= 29)
 			if durListed && iv.u.micros > 0 {
 				st.Class("interval:bounded-by-" + kfDurOverflow)
 			}
